@@ -120,6 +120,28 @@ def handle : List String → String
             | some h => showM (Gen.C06F.optimize_read_slicers a b c (liftH h))
             | none => "bad-op"
       | _, _, _ => "bad-op"
+  | ["gen", "is_fancy", a] =>
+      match parseVL? a with
+      | some a => showM (Gen.C06F.is_fancy a)
+      | _ => "bad-op"
+  | ["gen", "canonical_slicers", a, b, c] =>
+      match parseVL? a, parseVL? b, parseV? c with
+      | some a, some b, some c => showM (Gen.C06F.canonical_slicers a b c)
+      | _, _, _ => "bad-op"
+  | ["gen", "predict_shape", a, b] =>
+      match parseVL? a, parseVL? b with
+      | some a, some b => showM (Gen.C06F.predict_shape a b)
+      | _, _ => "bad-op"
+  | ["gen", "calc_slicedefs", a, b, c, d, e, heur] =>
+      match parseVL? a, parseVL? b, parseV? c, parseV? d, parseV? e with
+      | some a, some b, some c, some d, some e =>
+          if heur = "src" then
+            showM (Gen.C06F.calc_slicedefs a b c d e
+              (fun x y z => Gen.C06F.threshold_heuristic x y z Gen.C06F.SKIP_THRESH))
+          else match parseHeur? heur with
+            | some h => showM (Gen.C06F.calc_slicedefs a b c d e (liftH h))
+            | none => "bad-op"
+      | _, _, _, _, _ => "bad-op"
   | ["gen", "slicers2segments", a, b, c, d] =>
       match parseVL? a, parseVL? b, parseV? c, parseV? d with
       | some a, some b, some c, some d => showM (Gen.C06F.slicers2segments a b c d)
